@@ -161,6 +161,27 @@ from_list = Contract(
     loops={'0': LoopSpec(lambda A, E: And(0 <= E['a'].n, E['a'].n <= A['__a'].n, same(E['a'], A['__a'], E['a'].n),
                                           z3.ForAll([j_], Implies(And(E['a'].n <= j_, j_ < A['__a'].n), A['__a'].arr[j_] == 0))))})
 
+# ---------------------------------------------------------------- _truncate (a mod X^n): caller of _from_list, checked against its contract
+def _from_list_callee(vc, P, args, kw, e):
+    """the contract of _from_list proved above, used at a call site: the argument object itself is cut back to its last nonzero entry"""
+    ref = args[0]
+    if not isinstance(ref, Ref): raise OutsideSubset('_from_list on a non-object')
+    o = P.deref(ref)
+    k = vc.fresh('fl_n')
+    vc.assume(P, And(0 <= k, k <= o.n, Or(k == 0, o.arr[k - 1] != 0), z3.ForAll([j_], Implies(And(k <= j_, j_ < o.n), o.arr[j_] == 0))))
+    P.heap[ref.id] = VList(o.arr, k, o.kind)
+    return ref
+
+
+truncate = Contract(
+    'mpyc.gfpx.Polynomial._truncate', _an_params,
+    requires=lambda A: And(p > 1, rep(A['__a']), A['n'] >= 0),
+    ensures=lambda A, res, E: And(0 <= res.n, res.n <= A['n'], res.n <= A['__a'].n, rep(res), same(res, A['__a'], res.n), _a_unchanged(A, E),
+                                  # a mod X^n: every coefficient below X^n that is not in the result is zero
+                                  z3.ForAll([j_], Implies(And(res.n <= j_, j_ < A['n'], j_ < A['__a'].n), A['__a'].arr[j_] == 0))),
+    calls={'cls._from_list': _from_list_callee})
+
+
 # ---------------------------------------------------------------- __call__ (evaluation by Horner's rule with a reduction per step)
 # Spec: HV(i) is the Horner value after the i highest coefficients at the point xr = x mod p (HV(0) = 0, HV(i+1) = HV(i)*xr + a[n-1-i], revealed per
 # iteration; HV(n) = sum a[j] xr^j).  The result is the reduced representative of HV(n): res == HV(n) - K*p with an explicit ghost witness K
@@ -190,4 +211,4 @@ call = Contract(
                          reveal_init=[lambda A, E: HV(0) == 0],
                          reveal=[lambda A, E: HV(E['__i0'] + 1) == HV(E['__i0']) * E['x'] + A['__a'].arr[A['__a'].n - 1 - E['__i0']]])})
 
-CONTRACTS = [neg, add, sub, lshift, rshift, from_list, call]
+CONTRACTS = [neg, add, sub, lshift, rshift, from_list, truncate, call]
